@@ -34,6 +34,13 @@ def items(tier):
                     for table in (0, 1, 2, 3, 5):
                         out.append({'fee': list(fee), 'history': [list(e) for e in INIT] + [
                             ['quotes', table], ['submit', '1', asset, q], ['tick', j]]})
+    # considerations a hair away from a half unit (table 6)
+    for fee in [('pct', '0.001', '0'), ('pct', '0.0025', '0.005'), ('pct', '0.5', '0')]:
+        for asset in ('A', 'Bq'):
+            for q in (50, -50, 30, -30):
+                for j in ((3,) if tier == 'quick' else OPEN_INSTANTS):
+                    out.append({'fee': list(fee), 'history': [list(e) for e in INIT] + [
+                        ['quotes', 6], ['submit', '1', asset, q], ['tick', j]]})
     # two-order batches: buy and sell of the same size in one update (incl. the symmetric table)
     tables = (4, 0, 2) if tier == 'quick' else (4, 0, 1, 2, 3)
     for fee in fees(tier):
